@@ -1,5 +1,4 @@
-import json, os
-from vlib import core
+from vlib import schema_gen_extra
 
 ID = "C13"
 CLUSTER = "schema"
@@ -49,37 +48,5 @@ def nontrivial(fs):
 
 
 def extra(ctx):
-    run = "%s-s%d" % (ctx.tier, ctx.seed)
-    res = []
-    sp = os.path.join(core.BUILD, "gen", "status-%s.json" % run)
-    try:
-        st = json.load(open(sp))
-    except Exception as e:
-        return [{"name": "generated package compiles (fresh code from the working tree's generator, go build)",
-                 "ok": False, "info": "no status file %s: %s" % (sp, e)}]
-    bad = [b for b in st if not (b.get("generated") and b.get("compiled"))]
-    info = {"batches": len(st), "schemas": sum(b["schemas"] for b in st), "lines": sum(b["lines"] for b in st),
-            "generate_s": round(sum(b["gen_s"] for b in st), 2), "build_s": round(sum(b["build_s"] for b in st), 2)}
-    if bad:
-        info["log"] = bad[0].get("log", "")[:1500]
-    res.append({"name": "generated package compiles (fresh code from the working tree's generator, go build) — checked, not proved",
-                "ok": not bad, "info": info,
-                "failures": [{"case": ["batch", b["dir"], b.get("log", "")[:400]], "classes": ["gen_does_not_compile"],
-                              "verdict": "fail:gen_does_not_compile"} for b in bad]})
-    # AssignNode(foreign node) must behave like the plain call sequence on the generated builders
-    npth = os.path.join(core.BUILD, "gen", "nodediff-%s.json" % run)
-    try:
-        nd = json.load(open(npth)) or []
-    except Exception:
-        nd = []
-    fails = []
-    for d in nd:
-        cls = "gen_assignnode_panic" if d["node"] == "panic" else "gen_assignnode_differs"
-        fails.append({"case": d["case"], "classes": [cls], "verdict": "fail:" + cls})
-    res.append({"name": "generated builders: AssignNode(basicnode tree) == plain call sequence (%d runs) — checked, not modelled"
-                        % sum(b.get("node_runs", 0) for b in st),
-                # discharged = the comparison was carried out; every difference found is a failure record
-                # of its own (known finding or violation), like oracle failures of the correspondence run
-                "ok": sum(b.get("node_runs", 0) for b in st) > 0 or not st,
-                "info": {"differences": len(fails)}, "failures": fails[:50]})
-    return res
+    st, res = schema_gen_extra.compiles("c13", ctx)
+    return res + (schema_gen_extra.assignnode("c13", ctx, st) if st else [])
